@@ -28,6 +28,7 @@ const (
 	c01KPeer                 // SETTINGS exchange: dec.SetAllowedMaxDynamicTableSize(v) + enc.SetMaxDynamicTableSize(v)
 	c01KLimit                // enc.SetMaxDynamicTableSizeLimit(v) (encoder-local)
 	c01KBlock                // a whole one-field header block: Field immediately followed by End
+	c01KFill                 // a whole header block of many small distinct fields (fs), used as a seed prefix that fills the table
 )
 
 type c01OpDef struct {
@@ -35,6 +36,7 @@ type c01OpDef struct {
 	kind  c01Kind
 	f     HeaderField
 	v     uint32
+	fs    []HeaderField // c01KFill
 }
 
 // c01Op indexes c01OpTab (immutable).
@@ -93,6 +95,108 @@ var c01OpTab = []c01OpDef{
 	{label: "End", kind: c01KEnd},
 	c01P(0), c01P(33), c01P(70), c01P(4096), c01P(8192), c01P(30), c01P(31),
 	c01L(0), c01L(70), c01L(4096), c01L(16384),
+}
+
+// ---------------------------------------------------------------------------
+// Prefixed-integer boundary alphabet (RFC 7541 §5.1). Every integer the
+// Encoder writes (string length: 7-bit prefix; indexed field: 7; name index
+// of an incremental literal: 6, of a never-indexed / without-indexing
+// literal: 4; table size update: 5) changes shape at prefix-max = 2^N-1
+// (one byte -> prefix + continuation) and again wherever the remainder
+// i-(2^N-1) crosses a power of 128 (128, 16384: one more continuation
+// byte). The fields below put one value on each side of (and on) each of
+// these boundaries.
+// ---------------------------------------------------------------------------
+
+// c01StrLens are the encoded string lengths around the first two boundaries
+// of the 7-bit prefix: prefix-max 127 and remainder 128 (= 255).
+var c01StrLens = []int{126, 127, 128, 254, 255, 256}
+
+// c01LongStrLens: around remainder 16384 (= 127+16384), the second
+// continuation byte.
+var c01LongStrLens = []int{16510, 16511, 16512}
+
+// c01RawStr has encoded length n as a raw literal: 'X' has an 8-bit Huffman
+// code (RFC 7541 Appendix B), so Huffman coding is not strictly shorter.
+func c01RawStr(n int) string { return strings.Repeat("X", n) }
+
+// c01HufStr is the longest run of 'a' (5-bit code) whose Huffman coding,
+// padded to whole octets, is exactly n octets long (n=255: 408 x 'a').
+func c01HufStr(n int) string { return strings.Repeat("a", 8*n/5) }
+
+// After the seed block Fill (c01FillN fields x000=v .. x209=v, each a new
+// 37-octet entry, in a table of 8192) entry xI sits at HPACK index
+// 62+(c01FillN-1-I); c01XAt(idx) is the entry number found at index idx then.
+const c01FillN = 210
+
+func c01XName(i int) string { return fmt.Sprintf("x%03d", i) }
+func c01XAt(idx int) int    { return c01FillN + 61 - idx }
+
+var (
+	c01IdxIndexed     = []int{126, 127, 128, 254, 255, 256} // indexed field, 7-bit prefix: 127, 127+128
+	c01IdxIncremental = []int{62, 63, 64, 190, 191, 192}    // name index of a literal with incremental indexing, 6-bit prefix: 63, 63+128
+	c01IdxNever       = []int{142, 143, 144}                // name index of a never-indexed literal, 4-bit prefix: 15+128 (14/15/32 are static names above)
+)
+
+func c01BoundaryOps() (all, strOps, longOps, idxOps []c01OpDef) {
+	for _, coding := range []string{"raw", "huf"} {
+		mk := c01RawStr
+		if coding == "huf" {
+			mk = c01HufStr
+		}
+		for _, n := range c01StrLens {
+			l := fmt.Sprintf("%s%d", coding, n)
+			strOps = append(strOps, c01F("k="+l, "k", mk(n)), c01F(l+"=v", mk(n), "v"), c01S("k="+l, "k", mk(n)), c01S(l+"=v", mk(n), "v"))
+		}
+		for _, n := range c01LongStrLens {
+			l := fmt.Sprintf("%s%d", coding, n)
+			longOps = append(longOps, c01F("k="+l, "k", mk(n)), c01F(l+"=v", mk(n), "v"))
+		}
+	}
+	fill := c01OpDef{label: fmt.Sprintf("Fill(%s..%s=v)", c01XName(0), c01XName(c01FillN-1)), kind: c01KFill}
+	for i := 0; i < c01FillN; i++ {
+		fill.fs = append(fill.fs, HeaderField{Name: c01XName(i), Value: "v"})
+	}
+	idxOps = append(idxOps, fill)
+	for _, idx := range c01IdxIndexed {
+		n := c01XName(c01XAt(idx))
+		idxOps = append(idxOps, c01F(n+"=v", n, "v")) // full match of the entry at index idx
+	}
+	for _, idx := range c01IdxIncremental {
+		n := c01XName(c01XAt(idx))
+		idxOps = append(idxOps, c01F(n+"=w", n, "w")) // name matched only by the entry at index idx; indexed as a new entry
+	}
+	for _, idx := range c01IdxNever {
+		n := c01XName(c01XAt(idx))
+		idxOps = append(idxOps, c01S(n+"=w", n, "w")) // name matched only by the entry at index idx
+	}
+	all = append(append(append(all, strOps...), longOps...), idxOps...)
+	// table size update, 5-bit prefix: 31 (with 30 above), 31+128
+	all = append(all, c01P(32), c01P(158), c01P(159), c01P(160))
+	return
+}
+
+func c01Labels(ds []c01OpDef) []string {
+	var out []string
+	for _, d := range ds {
+		out = append(out, d.label)
+	}
+	return out
+}
+
+func init() {
+	all, _, _, _ := c01BoundaryOps()
+	c01OpTab = append(c01OpTab, all...)
+	if len(c01OpTab) > 255 {
+		panic("c01: op table exceeds the uint8 index")
+	}
+	seen := map[string]bool{}
+	for _, d := range c01OpTab {
+		if seen[d.label] {
+			panic("c01: duplicate op label " + d.label)
+		}
+		seen[d.label] = true
+	}
 }
 
 func c01OpByLabel(l string) (c01Op, bool) {
@@ -162,7 +266,35 @@ type c01Ref struct {
 	size      uint64
 	max       uint64
 	allowed   uint64
-	fieldSeen bool // a field representation was decoded in the open block
+	fieldSeen bool        // a field representation was decoded in the open block
+	ints      []c01IntObs // every prefixed integer read by the last decode call (vacuity evidence only)
+}
+
+// c01IntObs is one prefixed integer the reference decoder read: prefix bits and value.
+type c01IntObs struct {
+	n uint
+	v uint64
+}
+
+// c01IntClass places v relative to the shape boundaries of an n-bit prefix integer.
+func c01IntClass(o c01IntObs) string {
+	k := uint64(1)<<o.n - 1
+	pre := fmt.Sprintf("int%d:", o.n)
+	switch rem := o.v - k; {
+	case o.v < k:
+		return pre + "below-prefix-max"
+	case rem == 0:
+		return pre + "prefix-max"
+	case rem < 127:
+		return pre + "rem-1..126"
+	case rem == 127 || rem == 128:
+		return pre + fmt.Sprintf("rem-%d", rem)
+	case rem < 16383:
+		return pre + "rem-129..16382"
+	case rem == 16383 || rem == 16384:
+		return pre + fmt.Sprintf("rem-%d", rem)
+	}
+	return pre + "rem-above-16384"
 }
 
 // c01Repr is one decoded representation.
@@ -209,7 +341,9 @@ func (r *c01Ref) add(p c01Pair) {
 		return
 	}
 	r.evictTo(r.max - sz)
-	r.ents = append([]c01Pair{p}, r.ents...)
+	r.ents = append(r.ents, c01Pair{}) // insert at the front (index 62)
+	copy(r.ents[1:], r.ents)
+	r.ents[0] = p
 	r.size += sz
 }
 
@@ -277,7 +411,7 @@ func c01HuffDecode(b []byte) (string, bool) {
 	return string(out), true
 }
 
-func c01RefString(p []byte) (string, []byte, string) {
+func c01RefString(p []byte, obs *[]c01IntObs) (string, []byte, string) {
 	if len(p) == 0 {
 		return "", nil, "truncated"
 	}
@@ -286,6 +420,7 @@ func c01RefString(p []byte) (string, []byte, string) {
 	if e != "" {
 		return "", nil, e
 	}
+	*obs = append(*obs, c01IntObs{7, l})
 	if uint64(len(p)) < l {
 		return "", nil, "truncated"
 	}
@@ -303,6 +438,7 @@ func c01RefString(p []byte) (string, []byte, string) {
 
 // decode consumes a sequence of complete representations.
 func (r *c01Ref) decode(p []byte) (reprs []c01Repr, errClass string) {
+	r.ints = r.ints[:0]
 	for len(p) > 0 {
 		c := p[0]
 		var rp c01Repr
@@ -313,6 +449,7 @@ func (r *c01Ref) decode(p []byte) (reprs []c01Repr, errClass string) {
 			if e != "" {
 				return e
 			}
+			r.ints = append(r.ints, c01IntObs{n, idx})
 			var name, value string
 			if idx != 0 {
 				pr, ok := r.at(idx)
@@ -321,12 +458,12 @@ func (r *c01Ref) decode(p []byte) (reprs []c01Repr, errClass string) {
 				}
 				name = pr.n
 			} else {
-				name, p, e = c01RefString(p)
+				name, p, e = c01RefString(p, &r.ints)
 				if e != "" {
 					return e
 				}
 			}
-			value, p, e = c01RefString(p)
+			value, p, e = c01RefString(p, &r.ints)
 			if e != "" {
 				return e
 			}
@@ -342,6 +479,7 @@ func (r *c01Ref) decode(p []byte) (reprs []c01Repr, errClass string) {
 			var idx uint64
 			idx, p, e = c01RefInt(p, 7)
 			if e == "" {
+				r.ints = append(r.ints, c01IntObs{7, idx})
 				pr, ok := r.at(idx)
 				if !ok {
 					e = "bad-index"
@@ -366,6 +504,7 @@ func (r *c01Ref) decode(p []byte) (reprs []c01Repr, errClass string) {
 			var v uint64
 			v, p, e = c01RefInt(p, 5)
 			if e == "" {
+				r.ints = append(r.ints, c01IntObs{5, v})
 				if v > r.allowed {
 					e = "size-update-above-allowed"
 				} else {
@@ -427,13 +566,35 @@ func c01New(id string, perField bool) *c01State {
 	return s
 }
 
+// c01Q quotes a string; long ones (the length-boundary alphabet) are shortened to head + length.
+func c01Q(x string) string {
+	if len(x) <= 48 {
+		return strconv.Quote(x)
+	}
+	return fmt.Sprintf("%q...(%d octets)", x[:8], len(x))
+}
+
+// c01Hex prints wire bytes; long blocks are shortened to head + tail + length.
+func c01Hex(b []byte) string {
+	if len(b) <= 160 {
+		return fmt.Sprintf("%x", b)
+	}
+	return fmt.Sprintf("%x...%x(%d octets)", b[:96], b[len(b)-16:], len(b))
+}
+
 func c01FieldsString(fs []HeaderField) string {
 	var b strings.Builder
 	for i, f := range fs {
+		if len(fs) > 12 && i == 4 {
+			fmt.Fprintf(&b, " ...(%d fields)...", len(fs)-8)
+		}
+		if len(fs) > 12 && i >= 4 && i < len(fs)-4 {
+			continue
+		}
 		if i > 0 {
 			b.WriteString(" ")
 		}
-		fmt.Fprintf(&b, "%q=%q", f.Name, f.Value)
+		b.WriteString(c01Q(f.Name) + "=" + c01Q(f.Value))
 		if f.Sensitive {
 			b.WriteString("(S)")
 		}
@@ -453,7 +614,16 @@ func c01RefEntsString(r *c01Ref) string {
 }
 
 func c01Canon(s *c01State) string {
-	b := make([]byte, 0, 512)
+	n := 256 + 2*len(s.block)
+	for _, t := range []*headerFieldTable{&s.enc.dynTab.table, &s.dec.dynTab.table} {
+		for _, e := range t.ents {
+			n += 2 * (len(e.Name) + len(e.Value) + 12) // twice: the reference table holds the same entries
+		}
+	}
+	for _, f := range s.pend {
+		n += len(f.Name) + len(f.Value) + 12
+	}
+	b := make([]byte, 0, n)
 	num := func(v uint64) { b = strconv.AppendUint(b, v, 10); b = append(b, ',') }
 	flag := func(v bool) {
 		if v {
@@ -536,7 +706,7 @@ func c01Enabled(s *c01State, op c01Op) bool {
 	switch op.def().kind {
 	case c01KEnd:
 		return len(s.pend) > 0
-	case c01KPeer, c01KLimit, c01KBlock:
+	case c01KPeer, c01KLimit, c01KBlock, c01KFill:
 		return len(s.pend) == 0
 	}
 	return true
